@@ -27,6 +27,9 @@ pub struct Server {
     pub addr: SocketAddr,
 }
 
+/// receive timeout of the servers of the idle flavour
+pub const IDLE_TIMEOUT_SECS: u32 = 2;
+
 static NEXT_PORT: AtomicU64 = AtomicU64::new(0);
 
 fn free_port() -> u16 {
@@ -390,6 +393,37 @@ impl Driver {
         }
     }
 
+    /// Stay silent on connection i until the server's receive timeout has passed (with a
+    /// margin); returns whether the server has closed the connection by then.
+    pub fn idle(&mut self, i: usize) -> bool {
+        let c = self.conns.get_mut(&i).unwrap();
+        let t0 = Instant::now();
+        let limit = Duration::from_millis(IDLE_TIMEOUT_SECS as u64 * 1000 + 900);
+        let mut buf = [0u8; 65536];
+        loop {
+            match c.sock.read(&mut buf) {
+                Ok(0) => {
+                    c.closed = true;
+                    break;
+                }
+                Ok(n) => {
+                    c.rx.extend_from_slice(&buf[..n]);
+                    c.received += n as u64;
+                }
+                Err(e) if e.kind() == std::io::ErrorKind::WouldBlock => {}
+                Err(_) => {
+                    c.closed = true;
+                    break;
+                }
+            }
+            if t0.elapsed() > limit {
+                break;
+            }
+            std::thread::sleep(Duration::from_millis(2));
+        }
+        c.closed
+    }
+
     pub fn take_responses(&mut self, i: usize, obs: &mut String) -> Vec<Vec<u8>> {
         let c = self.conns.get_mut(&i).unwrap();
         let mut out = Vec::new();
@@ -419,7 +453,9 @@ pub fn run_case(
 ) -> u64 {
     // reads pending before this case's server exists (tasks of earlier runtimes that were cut off)
     let base_pending = hook::begun() - hook::done();
-    let server = Server::start(cfg.item_limit, cfg.mem_limit, 64, 60, 2);
+    // cases of the idle flavour (their id says so) run with a short receive timeout
+    let idle_case = cfg.id.contains("-idle-");
+    let server = Server::start(cfg.item_limit, cfg.mem_limit, 64, if idle_case { IDLE_TIMEOUT_SECS } else { 60 }, 2);
     let mut d = Driver::new(server);
     let ml = match cfg.mem_limit {
         Some(l) => l.to_string(),
@@ -506,6 +542,20 @@ pub fn run_case(
                 let _ = writeln!(trace, "X {}", i);
                 let _ = writeln!(trace, "G {}", i);
                 let _ = writeln!(obs, "S {} 1", i);
+                open = false;
+            }
+            Ev::Idle(i) => {
+                if !idle_case || !d.conns.contains_key(&i) || d.conns[&i].closed {
+                    open = !d.conns.contains_key(&i) || !d.conns[&i].closed;
+                    continue;
+                }
+                // nothing is sent for longer than the receive timeout: the handler gives the
+                // connection up, whatever part of a request it holds
+                let closed = d.idle(i);
+                let _ = writeln!(trace, "I {}", i);
+                let _ = writeln!(trace, "G {}", i);
+                last = d.take_responses(i, obs);
+                let _ = writeln!(obs, "S {} {}", i, if closed { 1 } else { 0 });
                 open = false;
             }
             Ev::Tick(t) => {
